@@ -6,3 +6,5 @@ package badgerstore
 // see verif_on.go.
 
 func simAt(point, arg string) {}
+
+func simSetup(qs *QueryStore) {}
